@@ -150,6 +150,10 @@ func drawC05(t *rapid.T) c05Case {
 			tuneArchJump(&p, rapid.IntRange(250, 260).Draw(t, "archJumpTarget"), rapid.Uint64().Draw(t, "tuneSeed"))
 		}
 	}
+	if rapid.IntRange(0, 7).Draw(t, "maybeInvalid") == 0 {
+		// policies with an injected defect: normally rejected, but whatever is accepted must still be a valid filter
+		p = drawC07(t).Policy
+	}
 	c := c05Case{Policy: p, Seed: rapid.Uint64().Draw(t, "seed"),
 		Order: []string{"native", "native", "little", "big"}[rapid.IntRange(0, 3).Draw(t, "order")]}
 	every := ev.Scale(12, 6)
